@@ -29,7 +29,7 @@ def render(items, rng=None, ns=""):
     def one(it):
         if it["t"] == "tag":
             if it.get("raw") is not None:
-                return it["raw"]
+                return ns + it["raw"]
             return ns + it["name"] + it["suffix"]
         return "(" + sp() + ("," + (rng.choice(["", " "]) if rng else "")).join(sp() + one(k) + sp() for k in it["kids"]) + sp() + ")"
     return (("," + (rng.choice(["", " "]) if rng else " ")) if True else ",").join(one(i) for i in items)
